@@ -271,8 +271,12 @@ structure Dec where
   ctx : Array Nat
 deriving Repr
 
-/-- `bytein()` -/
+/-- `bytein()`.  Since /repo c50eb7d the first statement is a bounds guard: past the sentinel
+(`bp+1 >= len(data)`) it behaves as at end of stream; so no read of `bytein` can leave `data`. -/
 def bytein (d : Dec) : Option Dec :=
+  if d.bp + 1 ≥ d.data.size then
+    some { d with c := u32 (d.c + 0xFF00), ct := 8, eos := d.eos + 1 }
+  else
   match d.data[d.bp + 1]?, d.data[d.bp]? with
   | some next, some cur =>
     if cur = 0xFF then
@@ -310,25 +314,29 @@ def renormdLoop : Nat → Dec → Option Dec
 
 def renormd (d : Dec) : Option Dec := renormdLoop 16 d
 
-/-- body of `Decode` once `*cx` and the table entries of its state are read -/
+/-- `nmpsTable[state] | mps<<7` -/
+def mpsCx (cx nmps : Nat) : Nat := u8 (nmps + u8 (cx / 128 * 128))
+/-- `nlpsTable[state] | newMPS<<7` with `newMPS = 1 - mps` iff `switchTable[state] == 1` -/
+def lpsCx (cx nlps sw : Nat) : Nat := u8 (nlps + u8 ((if sw = 1 then 1 - cx / 128 else cx / 128) * 128))
+
+/-- body of `Decode` once `*cx` and the table entries of its state are read (`mps = cx / 128`, `a -= qe` first) -/
 def decodeCore (d : Dec) (contextID cx qe nmps nlps sw : Nat) : Option (Nat × Dec) :=
-  let mps := cx / 128
-  let a := sub32 d.a qe
-  let lpsCx := u8 (nlps + u8 ((if sw = 1 then 1 - mps else mps) * 128))
-  let mpsCx := u8 (nmps + u8 (mps * 128))
   if d.c / 2^16 < qe then
-    if a < qe then
-      (renormd { d with a := qe, ctx := d.ctx.setIfInBounds contextID mpsCx }).map (mps, ·)
+    -- LPS exchange: if a < qe { a = qe; d = mps; MPS update } else { a = qe; d = 1 - mps; LPS update }; renormd()
+    if sub32 d.a qe < qe then
+      (renormd { d with a := qe, ctx := d.ctx.setIfInBounds contextID (mpsCx cx nmps) }).map (cx / 128, ·)
     else
-      (renormd { d with a := qe, ctx := d.ctx.setIfInBounds contextID lpsCx }).map (1 - mps, ·)
+      (renormd { d with a := qe, ctx := d.ctx.setIfInBounds contextID (lpsCx cx nlps sw) }).map (1 - cx / 128, ·)
   else
-    let c := sub32 d.c (u32 (qe * 2^16))
-    if a / 0x8000 % 2 ≠ 0 then        -- (a & 0x8000) != 0
-      some (mps, { d with a := a, c := c })
-    else if a < qe then
-      (renormd { d with a := a, c := c, ctx := d.ctx.setIfInBounds contextID lpsCx }).map (1 - mps, ·)
+    -- c -= qe << 16; if (a & 0x8000) != 0 { return mps }; if a < qe { LPS } else { MPS }; renormd()
+    if sub32 d.a qe / 0x8000 % 2 ≠ 0 then
+      some (cx / 128, { d with a := sub32 d.a qe, c := sub32 d.c (u32 (qe * 2^16)) })
+    else if sub32 d.a qe < qe then
+      (renormd { d with a := sub32 d.a qe, c := sub32 d.c (u32 (qe * 2^16)),
+                        ctx := d.ctx.setIfInBounds contextID (lpsCx cx nlps sw) }).map (1 - cx / 128, ·)
     else
-      (renormd { d with a := a, c := c, ctx := d.ctx.setIfInBounds contextID mpsCx }).map (mps, ·)
+      (renormd { d with a := sub32 d.a qe, c := sub32 d.c (u32 (qe * 2^16)),
+                        ctx := d.ctx.setIfInBounds contextID (mpsCx cx nmps) }).map (cx / 128, ·)
 
 /-- `Decode(contextID)` -/
 def decode (d : Dec) (contextID : Nat) : Option (Nat × Dec) :=
@@ -356,8 +364,10 @@ def Dec.newRaw (bytes : List Nat) : Dec :=
   { data := (bytes ++ [0xFF, 0xFF]).toArray, bp := 0, dataLen := bytes.length,
     a := 0, c := 0, ct := 0, eos := 0, ctx := #[] }
 
-/-- `RawDecode()` -/
+/-- `RawDecode()` (with the c50eb7d guard: past the sentinel it supplies 1-bits) -/
 def rawDecode (d : Dec) : Option (Nat × Dec) :=
+  -- if ct == 0 && bp >= len(data) { c = 0xFF; ct = 8 }
+  let d := if d.ct = 0 ∧ d.bp ≥ d.data.size then { d with c := 0xFF, ct := 8 } else d
   let step : Option Dec :=
     if d.ct = 0 then
       match d.data[d.bp]? with
